@@ -153,7 +153,7 @@ func (e *Encoder) writeObject(data interface{}) (int, error) {
 			return 0, err
 		}
 	}
-	if byte(length) <= _objectTagMaxLen {
+	if length <= int(_objectTagMaxLen) {
 		// NOTE: when length=2, length+_objectLenTagMin='b', the same as the binary chunk start with,
 		// which will be special processed in decoder
 		if _, err := e.writeBT(byte(length) + _objectLenTagMin); err != nil {
